@@ -106,8 +106,11 @@ type FS struct {
 	Poison bool
 
 	// Fault injection: fail the n-th (1-based) mutating call with an error; 0 = off.
-	FailAt    int
-	mutations int
+	FailAt int
+	// FailPartial: when the injected fault hits a data write, half of the bytes are written before the
+	// error is returned (and the number of bytes written is reported), like a write interrupted by ENOSPC/EIO.
+	FailPartial bool
+	mutations   int
 
 	Stats Stats
 }
@@ -551,6 +554,19 @@ func (h *File) writeAt(p []byte, off int64) (int, error) {
 		return 0, &os.PathError{Op: "write", Path: h.name, Err: syscall.EBADF}
 	}
 	if err := h.fs.mutate(); err != nil {
+		if h.fs.FailPartial && len(p) > 1 {
+			half := p[:len(p)/2]
+			h.fs.poison(h.in, nil)
+			end := off + int64(len(half))
+			if end > int64(len(h.in.Data)) {
+				nd := make([]byte, end)
+				copy(nd, h.in.Data)
+				h.in.Data = nd
+			}
+			copy(h.in.Data[off:], half)
+			h.fs.log(Op{Kind: OpWrite, Name: h.name, Ino: h.in.ID, Off: off, Data: append([]byte(nil), half...)})
+			return len(half), err
+		}
 		return 0, err
 	}
 	h.fs.poison(h.in, nil)
